@@ -121,8 +121,26 @@ def check(ctx) -> None:
             totals_var = n.targets[0].id
     ctx.require(totals_var is not None, "get_largest_condition no longer computes per-condition totals by a comprehension over the tables")
     total_names = {n.target.elts[1].id for n in own_nodes(g.node) if isinstance(n, ast.For) and isinstance(n.target, ast.Tuple) and len(n.target.elts) == 2 and isinstance(n.target.elts[1], ast.Name) and isinstance(n.iter, ast.Call) and getattr(n.iter.func, "id", "") == "enumerate" and n.iter.args and isinstance(n.iter.args[0], ast.Name) and n.iter.args[0].id == totals_var}
+    # loop variables that stand for one condition table / one totals list: `for condition, total in zip(conditions, totals)`
+    cond_names = set()
+    for n in own_nodes(g.node):
+        if isinstance(n, (ast.For, ast.comprehension)):
+            it, tg = n.iter, n.target
+            if isinstance(it, ast.Name) and it.id in tables and isinstance(tg, ast.Name):
+                cond_names.add(tg.id)
+            if isinstance(it, ast.Call) and getattr(it.func, "id", "") == "zip" and isinstance(tg, ast.Tuple):
+                for a_, t_ in zip(it.args, tg.elts):
+                    if isinstance(a_, ast.Name) and isinstance(t_, ast.Name):
+                        if a_.id in tables:
+                            cond_names.add(t_.id)
+                        elif a_.id == totals_var:
+                            total_names.add(t_.id)
     for n in ast.walk(loops[0]):
         if isinstance(n, ast.Subscript) and isinstance(n.value, ast.Subscript) and isinstance(n.value.value, ast.Name) and n.value.value.id in tables:
+            n_sub += 1
+            if not (isinstance(n.slice, ast.Name) and n.slice.id == row):
+                bad.append(n)
+        if isinstance(n, ast.Subscript) and isinstance(n.value, ast.Name) and n.value.id in cond_names:
             n_sub += 1
             if not (isinstance(n.slice, ast.Name) and n.slice.id == row):
                 bad.append(n)
@@ -130,10 +148,10 @@ def check(ctx) -> None:
             n_sub += 1
             if not (isinstance(n.slice, ast.Name) and n.slice.id == row):
                 bad.append(n)
-    ctx.instance("C10-A2", "get_largest_condition: %d table subscripts use the row index %r" % (n_sub, row), g.loc(loops[0]), ok=not bad and n_sub >= 4)
+    ctx.instance("C10-A2", "get_largest_condition: %d table subscripts use the row index %r" % (n_sub, row), g.loc(loops[0]), ok=not bad and n_sub >= 2)
     for b in bad:
         ctx.finding("C10-A2", "ExtractMCS.get_largest_condition:cross-row-access", g.loc(b), "table access %s does not use the current row index %r: data of another reaction is read" % (unparse(b), row))
-    ctx.require(n_sub >= 4, "fewer than 4 table subscripts in get_largest_condition")
+    ctx.require(n_sub >= 2, "fewer than 2 table subscripts in get_largest_condition")
     ret_names = {r.value.id for r in own_nodes(g.node) if isinstance(r, ast.Return) and isinstance(r.value, ast.Name)}
     apps = [n for n in ast.walk(loops[0]) if isinstance(n, ast.Call) and isinstance(n.func, ast.Attribute) and n.func.attr == "append" and isinstance(n.func.value, ast.Name) and n.func.value.id in ret_names]
     ctx.require(apps, "get_largest_condition no longer appends to result")
@@ -147,8 +165,16 @@ def check(ctx) -> None:
                     return True
                 if isinstance(e, ast.IfExp):
                     return elem_ok(e.body) and elem_ok(e.orelse)
+                if isinstance(e, ast.Subscript) and isinstance(e.value, ast.Name) and e.value.id in cond_names and isinstance(e.slice, ast.Name) and e.slice.id == row:
+                    return True
                 return isinstance(e, ast.Subscript) and isinstance(e.value, ast.Subscript) and isinstance(e.value.value, ast.Name) and e.value.value.id in tables and isinstance(e.slice, ast.Name) and e.slice.id == row
             ok = bool(srcs) and all(elem_ok(v) for v in srcs)
+            if not srcs:
+                # unpacked from the best of a candidate list: `_, _, best = cands[0]` with `cands.append((.., .., cond[row]))`
+                for _st, v, i in assignments_to(g, arg.id):
+                    if i is not None and isinstance(v, ast.Subscript) and isinstance(v.value, ast.Name):
+                        tuples = [c.args[0] for c in ast.walk(loops[0]) if isinstance(c, ast.Call) and isinstance(c.func, ast.Attribute) and c.func.attr == "append" and isinstance(c.func.value, ast.Name) and c.func.value.id == v.value.id and c.args and isinstance(c.args[0], ast.Tuple)]
+                        ok = bool(tuples) and all(i < len(t.elts) and elem_ok(t.elts[i]) for t in tuples)
         ctx.instance("C10-A2", "appended object %s is an element of the input tables at the current row" % unparse(arg), g.loc(a), ok=ok)
         if not ok:
             ctx.finding("C10-A2", "ExtractMCS.get_largest_condition:fabricated-record", g.loc(a), "the appended record is not an element conditions[c][row] of the input tables")
@@ -159,6 +185,42 @@ def check(ctx) -> None:
     if not ok:
         ctx.finding("C10-A2", "ExtractMCS.get_largest_condition:totals", g.loc(), "per-condition totals are filtered or reordered")
     totals_alignment(ctx, "C10-A2")
+    # ---------------------------------------------------------------- A7
+    # where the retained entry is picked by sorting a candidate list: the *last* of several stable sorts is the primary
+    # criterion, and that has to be the total number of matched atoms
+    ctx.rule("C10-A7", "a sort-based selection in get_largest_condition ranks by the total first", 0)
+
+    def is_total(e) -> bool:
+        return isinstance(e, ast.Subscript) and isinstance(e.value, ast.Name) and e.value.id in total_names and isinstance(e.slice, ast.Name) and e.slice.id == row
+
+    cand_lists: dict = {}
+    for c in ast.walk(loops[0]):
+        if isinstance(c, ast.Call) and isinstance(c.func, ast.Attribute) and c.func.attr == "append" and isinstance(c.func.value, ast.Name) and c.args and isinstance(c.args[0], ast.Tuple):
+            cand_lists.setdefault(c.func.value.id, []).append(c.args[0])
+    for lst, tuples in sorted(cand_lists.items()):
+        tot_pos = {i for t in tuples for i, e in enumerate(t.elts) if is_total(e)}
+        sorts = [c for c in ast.walk(loops[0]) if isinstance(c, ast.Call) and isinstance(c.func, ast.Attribute) and c.func.attr == "sort" and isinstance(c.func.value, ast.Name) and c.func.value.id == lst]
+        sorts.sort(key=lambda c: (c.lineno, c.col_offset))
+        if not sorts or len(tot_pos) != 1:
+            continue
+        tp = next(iter(tot_pos))
+
+        def primary(c):
+            key = next((k.value for k in c.keywords if k.arg == "key"), None)
+            if isinstance(key, ast.Lambda) and len(key.args.args) == 1:
+                b = key.body
+                if isinstance(b, ast.Tuple) and b.elts:
+                    b = b.elts[0]
+                if isinstance(b, ast.Subscript) and isinstance(b.value, ast.Name) and b.value.id == key.args.args[0].arg and isinstance(b.slice, ast.Constant):
+                    return b.slice.value
+            return None
+
+        last = sorts[-1]
+        pr = primary(last)
+        ok = pr == tp
+        ctx.instance("C10-A7", "candidates %r: %d sort(s); the last one ranks by element %r, the total is element %d" % (lst, len(sorts), pr, tp), g.loc(last), ok=ok)
+        if not ok:
+            ctx.finding("C10-A7", "ExtractMCS.get_largest_condition:sort-order", g.loc(last), "the candidates are sorted %d time(s) and the last (stable) sort - the primary criterion - ranks by tuple element %r, not by the total number of matched atoms (element %d): a condition with a larger first fragment but a smaller total is retained" % (len(sorts), pr, tp))
     # ---------------------------------------------------------------- A3
     sm = prog.func(SINGLE)
     scfg = CFG(sm.node)
